@@ -1,6 +1,6 @@
 (* Props/C13.v — matching is perfect and of minimum total weight. *)
 From Coq Require Import Arith List Bool Lia QArith Permutation.
-From QV Require Import Decoders.Matching.
+From QV Require Import Decoders.Matching Decoders.MatchingHist.
 Import ListNotations.
 Open Scope nat_scope.
 
@@ -65,6 +65,42 @@ Proof. exact brute_mwpm_min_perfect. Qed.
 Theorem c13_empty : (forall MaxW, mwpm_networkx MaxW [] = []) /\ perfect [] [] /\ is_min_pm [] [] = true /\ all_pms [] = [[]].
 Proof. split; [reflexivity|exact empty_graph_matching]. Qed.
 
+(* P-forall over operation HISTORIES on one SimpleGraph object (Decoders/MatchingHist.v): SimpleGraph is a dict, so between
+   two matchings a caller may use add_edge, g[k] = w, del / pop, popitem, update / |=, setdefault, clear.  `run h` is the
+   content of the object after the history h; the checker applied to it decides the property for the graph AS IT IS NOW *)
+Theorem c13_hist_checker : forall h m, is_min_pm (run h) m = true <->
+  perfect (run h) m /\ forall m', perfect (run h) m' -> (weight (run h) m <= weight (run h) m')%Q.
+Proof. exact hist_checker. Qed.
+(* the dict invariant (distinct keys) holds after every history; the SimpleGraph invariant (never a key together with
+   its reverse) holds after every history whose raw dict writes keep the orientation already stored *)
+Theorem c13_hist_keys_distinct : forall h, NoDup (keys (run h)).
+Proof. exact run_nodup. Qed.
+Theorem c13_hist_simple : forall h, safe_hist [] h -> simple (run h).
+Proof. exact simple_run. Qed.
+(* what a lookup returns after each kind of write *)
+Theorem c13_hist_set : forall k' k w g, get k' (setk k w g) = if keyb k' k then Some w else get k' g.
+Proof. exact get_setk. Qed.
+Theorem c13_hist_pop : forall k' k g, NoDup (keys g) -> get k' (pop k g) = if keyb k' k then None else get k' g.
+Proof. exact get_pop. Qed.
+Theorem c13_hist_add_edge : forall k' g a b w, NoDup (keys g) ->
+  get k' (add_edge g a b w) = if keyb k' (a, b) then Some w else if keyb k' (b, a) then None else get k' g.
+Proof. exact get_add_edge. Qed.
+Theorem c13_hist_update : forall k' l g,
+  get k' (update g l) = match get k' (rev l) with Some w => Some w | None => get k' g end.
+Proof. exact get_update. Qed.
+Theorem c13_hist_setdefault : forall k' k w g, get k' (setdefault k w g) =
+  if keyb k' k then (match get k g with Some w' => Some w' | None => Some w end) else get k' g.
+Proof. exact get_setdefault. Qed.
+Theorem c13_hist_popitem : forall g, g <> [] -> exists e, g = step g HPopitem ++ [e].
+Proof. exact popitem_spec. Qed.
+(* in a graph with the SimpleGraph invariant, the matcher's view of {a,b} is the entry stored under (a,b) or (b,a) *)
+Theorem c13_hist_edge_get : forall g a b w, simple g ->
+  (edge g a b = Some w <-> get (a, b) g = Some w \/ get (b, a) g = Some w).
+Proof. exact edge_get. Qed.
+(* add_edge-only histories are the insertion sequences above *)
+Theorem c13_hist_adds : forall ops, run (map (fun o : op => HAdd (fst (fst o)) (snd (fst o)) (snd o)) ops) = build ops.
+Proof. exact run_adds. Qed.
+
 (* non-vacuity: a 4-cycle with a chord, inserted with a reversed re-insertion; negative and rational weights *)
 Example c13_ex :
   let g := build [(0, 1, 3#1); (1, 2, (-1)#2); (2, 3, 3#1); (3, 0, 1#4); (2, 1, 5#1); (0, 2, 0#1)] in
@@ -78,3 +114,7 @@ Print Assumptions c13_meq_weight. Print Assumptions c13_checker. Print Assumptio
 Print Assumptions c13_no_pm. Print Assumptions c13_add_edge_last. Print Assumptions c13_add_edge_one_entry.
 Print Assumptions c13_wrapper. Print Assumptions c13_empty.
 Print Assumptions c13_contract_satisfiable. Print Assumptions c13_wrapper_instance.
+Print Assumptions c13_hist_checker. Print Assumptions c13_hist_keys_distinct. Print Assumptions c13_hist_simple.
+Print Assumptions c13_hist_set. Print Assumptions c13_hist_pop. Print Assumptions c13_hist_add_edge.
+Print Assumptions c13_hist_update. Print Assumptions c13_hist_setdefault. Print Assumptions c13_hist_popitem.
+Print Assumptions c13_hist_edge_get. Print Assumptions c13_hist_adds.
